@@ -36,6 +36,21 @@ def contracts():
        lets={"V": "spec.arg_raw(args, 0, '')", "PAD": "spec.arg_raw(args, 2, '0')",
              "CNT": "spec.to_int(spec.arg(args, 1, '0'), 0) if spec.arg(args, 1, '0').isdecimal() else 0"},
        int_limit=True)
+    # #pad: the trimmed value padded to CNT characters on the side named by the fourth argument (left by default;
+    # center puts the smaller half first); an empty raw third argument means "0"; a value already wide enough,
+    # or an empty pad string, is returned as it is
+    pf("pad_fn", ["len(result) == spec.pad_width(V, CNT, PAD)",
+                  "implies(len(V) >= CNT, result == V)",
+                  "implies(DIR == 'right', result.startswith(V))",
+                  "implies(DIR != 'right' and DIR != 'center', result.endswith(V))"],
+       # not stated: where the value sits for `center` (the slice clause result[h:h+len(V)] == V with
+       # h = (CNT - len(V)) // 2 is provable but takes 4-20 s per path in z3's sequence solver -- too close to
+       # the budget to be a stable verdict; the placement for `center` is therefore NOT decided by this check)
+       lets={"V": "spec.arg(args, 0, '')",
+             "PAD": "spec.arg_raw(args, 2, '0') if (len(args) >= 3 and args[2] != '') else '0'",
+             "DIR": "spec.arg_raw(args, 3, '')",
+             "CNT": "spec.to_int(spec.arg(args, 1, ''), 0) if spec.arg(args, 1, '').isdecimal() else 0"},
+       int_limit=True)
     # plural selects the singular form iff the number evaluates to 1 (expr_fn by its callee contract:
     # result == expr_value(expanded first argument))
     pf("plural_fn", ["result == (spec.arg(args, 1, '') if expr_value(spec.arg(args, 0, '0').strip().lower()) == '1' "
